@@ -8,6 +8,7 @@ IDX = {}
 # harnesses whose body only exists under Kani (recorder stubs / uninterpreted estimator / wait stub)
 KANI_ONLY = {"c06_new_wiring", "c19_async_new_wiring", "c10_wait_barrier", "c10_wait_vs_clear", "c10_wait_inflight",
              "c13_tinylfu_new", "c07_add_rule_n2", "c07_add_rule_n3", "c17_add_metrics_n2", "c17_add_metrics_n3",
+             "c19_async_client_remove_wiring",
              }
 
 
@@ -15,7 +16,24 @@ def P(pid, assumptions=()):
     IDX[pid] = {"assumptions": list(assumptions), "harnesses": []}
 
 
+# Harness functions that were written and attempted but do not finish within this machine's limits
+# (62 GB, no swap) - a check that cannot finish can only exit 2, so they are not registered; the
+# harness sources stay in /verif/harness and DESIGN.md 11.8 lists them with what happened.
+DROPPED = {
+    "c05_store_cleanup": "removed from the sources (superseded by c05_store_sweep + c05_em_cleanup_due)",
+    "c19_async_tick": "CBMC out of memory (50 GB) after ~5 min",
+    "c05_store_sweep_async": "CBMC out of memory (50 GB) during propositional reduction",
+    "c06_proc_tick": "CBMC out of memory (40 GB) after ~12 min",
+    "c08_proc_tick": "same body as c06_proc_tick",
+    "c16_proc_tick": "same body as c06_proc_tick",
+    "c05_proc_tick": "CBMC out of memory (40 GB) after ~13 min",
+    "c17_metrics_inner": "timeout after 7200 s (11 x 256 atomics)",
+}
+
+
 def H(pid, name, module, functions, bounds, tier="quick", timeout=600, mem_gb=16, **kw):
+    if kw.get("alias_of", name) in DROPPED or name in DROPPED or pid == "PROBE":
+        return
     d = {"name": name, "module": ("verif_harness" if module == "crate" else module + "::verif_harness"), "tier": tier, "timeout": timeout, "mem_gb": mem_gb,
          "functions": functions, "bounds": bounds}
     d.update(kw)
@@ -253,11 +271,24 @@ H("C04", "c04_room_admits", "policy::sync", ADDF, ADDB % 2 + "; asserts: with ro
 
 # ---- C19 (async flavour, processor side only)
 P("C19", [LOCKS, CLOCK, MREC, ARCD, WIREA, "in c19_async_tick ExpirationMap::try_cleanup is replaced by a stand-in handing out an arbitrary single listing (see C05)", "async-channel endpoints are only created, never operated: the harness hands items to the real handle_insert_event / handle_cleanup_event directly",
-          "NOT decided: AsyncCache::{insert, remove, wait, clear, close}, the task loops, executors, wakers, polling order, futures::select!, async_io::Timer (Kani cannot execute them)"])
+          "async client methods: an `async fn` of AsyncCache is polled ONCE with a no-op waker; async_channel::Sender::try_send (what the Send future calls first, completing at once when it succeeds) is replaced by a bounded-FIFO contract (capacity 2) whose buffer has room, so the method runs to completion in that poll; futures::select!'s shuffle of its (single) future is replaced by the identity",
+          "NOT decided: a suspended send (full insert buffer: the default arm of the async insert's select!, sets_dropped), AsyncCache::{wait, close}, get with a full ring (AsyncLFUPolicy::push), the task loops, executors, wakers, async_io::Timer (Kani cannot execute them / event-listener does not finish)"])
 AF = ["cache::async::CacheProcessor::handle_insert_event", "handle_item (macro instantiated for the async Item/processor)", "cache::async::CacheProcessor::handle_cleanup_event", "ShardedMap::try_cleanup_async", "AsyncLFUPolicy::{update, remove, cost, contains}"]
 H("C19", "c19_async_proc_update_delete", "cache::r#async", AF, "async processor, <= 1 resident, arbitrary key: one Update or Delete item; same assertions as the sync flavour", timeout=1800, features="sync,async", module_override="cache::r#async::verif_harness::both")
 H("C19", "c19_async_tick", "cache::r#async", AF, "async processor; one entry resident or not; the expiry index hands out nothing or one arbitrary listing (stand-in); cleanup tick <= 6 s later through handle_cleanup_event -> try_cleanup_async", timeout=7200, mem_gb=50, tier="thorough", features="sync,async", module_override="cache::r#async::verif_harness::both")
 H("C19", "c19_async_new_wiring", "cache::r#async", AF, WIREB + "; async processor", timeout=1800, features="sync,async", module_override="cache::r#async::verif_harness::both")
+
+ACF = ["AsyncCache::try_update", "AsyncCache::try_insert_in", "AsyncCache::try_remove", "AsyncCache::get", "AsyncCache::get_mut", "AsyncCache::clear", "async_channel::Send::poll (real, above the try_send contract)", "ShardedMap::{try_update, try_remove, get, get_mut, clear}", "AsyncLFUPolicy::clear", "AsyncRingStripe::push (ring not full)"]
+ACB = "AsyncCache wired as AsyncCacheBuilder::finalize wires it (no task spawned), <= 1 resident (arbitrary key, value tag, charge; TTL <= 4 s or none), insert buffer of capacity 2 with room, buffer_items 64, TransparentKeyBuilder; one client call with arbitrary key / cost / flags"
+AKW = dict(features="sync,async", module_override="cache::r#async::verif_harness::both")
+H("C19", "c19_async_client_insert", "cache::r#async", ACF, ACB + "; try_update (a plain fn in both flavours): immediate replacement, veto, what is queued, TTL", timeout=1800, **AKW)
+H("C19", "c19_async_client_insert_send", "cache::r#async", ACF, ACB + "; the whole async insert path incl. closed flag and select!{send, default} with room in the buffer", timeout=2400, **AKW)
+H("C19", "c19_async_client_remove_wiring", "cache::r#async", ACF, ACB + "; try_remove between a store recorder (found / not found) and the FIFO contract: a Delete is queued in both cases", timeout=1800, **AKW)
+H("C19", "c19_async_client_lookup", "cache::r#async", ACF, ACB + "; get / get_mut on an open or closed cache: hit iff resident and TTL not elapsed; hit/miss counted once", timeout=2400, **AKW)
+H("C19", "c19_async_client_clear", "cache::r#async", ACF, ACB + "; clear on an open or closed cache", timeout=1800, **AKW)
+H("C19", "c19_async_client_remove", "cache::r#async", ACF, ACB + "; try_remove over the real store", timeout=5400, mem_gb=28, tier="thorough", **AKW)
+H("C09", "c09_async_client_insert", "cache::r#async", ACF, ACB + "; insert_if_present / vetoed updates through the async flavour's own copy of try_update", timeout=1800, alias_of="c19_async_client_insert", **AKW)
+IDX["C09"]["assumptions"] += [MREC, ARCD]
 
 # the sweep through the async flavour (a plain loop; the sync try_cleanup's iterator chain needs > 40 GB and is thorough-only)
 for pid, nm in (("C05", "c05_async_cleanup"), ("C04", "c04_async_cleanup"), ("C11", "c11_async_cleanup"), ("C03", "c03_async_cleanup")):
@@ -294,7 +325,6 @@ RACEB = "empty cache with room; one New item for an arbitrary key; optionally a 
 H("C06", "c06_race_clear_in_new", "cache::sync", RACEF, RACEB, timeout=1800, mem_gb=20)
 H("C11", "c11_race_clear_in_new", "cache::sync", RACEF, RACEB, timeout=1800, mem_gb=20, alias_of="c06_race_clear_in_new")
 
-P("PROBE", [])
 H("PROBE", "probe_new_n0_nottl", "cache::sync", [], "probe", timeout=1200, mem_gb=20)
 H("PROBE", "probe_new_n0_ttl", "cache::sync", [], "probe", timeout=1200, mem_gb=20)
 H("PROBE", "probe_new_n1_nottl", "cache::sync", [], "probe", timeout=1200, mem_gb=20)
